@@ -52,6 +52,8 @@ THEOREMS = [
     'Nb.C09.run_clsWF',
     'Nb.C09.current_stale_fdata_alias_f32_counterexample',
     'Nb.C09.generated_outCls_agree',
+    'Nb.C09.saved_affine_close',
+    'Nb.C09.generated_transform_rules_agree',
 ]
 ASSUMPTIONS = [
     'hand-written Lean model of save()/to_filename/to_file_map/ArrayProxy/get_fdata cache over an ABSTRACT file '
@@ -224,6 +226,49 @@ def regen():
                     found.append(row)
         return [r[1:] for r in sorted(found)]
     has_to_bytes = sorted(c for n, c in code.items() if hasattr(getattr(nib, n), 'to_bytes'))
+
+    def a2h_codes():
+        """`Nifti1Pair._affine2header`: the `code=` constants of its `set_sform(self._affine, …)` / `set_qform(…)` calls,
+        as integers of `xform_codes` (99 = not found / not a constant / other first argument)"""
+        from nibabel.nifti1 import xform_codes
+        tree = ast.parse(textwrap.dedent(inspect.getsource(nib.Nifti1Pair._affine2header)))
+        got = {'set_sform': [], 'set_qform': []}
+        for node in ast.walk(tree):
+            if isinstance(node, ast.Call) and getattr(node.func, 'attr', None) in got:
+                arg0 = node.args[0] if node.args else None
+                own = isinstance(arg0, ast.Attribute) and arg0.attr == '_affine' and getattr(arg0.value, 'id', None) == 'self'
+                kw = {k.arg: k.value for k in node.keywords}
+                cv = kw.get('code', node.args[1] if len(node.args) > 1 else None)
+                try:
+                    c = int(xform_codes[cv.value]) if own and isinstance(cv, ast.Constant) else 99
+                except Exception:
+                    c = 99
+                got[node.func.attr].append(c)
+        one = lambda l: l[0] if len(l) == 1 else 99
+        return one(got['set_sform']), one(got['set_qform'])
+
+    def best_order():
+        """`Nifti1Header.get_best_affine`: the order in which `sform_code` (0) / `qform_code` (1) are tested `!= 0`
+        and which getter each test returns (0 get_sform / 1 get_qform); then the fallback (2 = get_base_affine)"""
+        from nibabel.nifti1 import Nifti1Header
+        tree = ast.parse(textwrap.dedent(inspect.getsource(Nifti1Header.get_best_affine)))
+        fn = tree.body[0]
+        fields = {'sform_code': 0, 'qform_code': 1}
+        getters = {'get_sform': 0, 'get_qform': 1, 'get_base_affine': 2}
+        rows, fallback = [], 9
+        for st in fn.body:
+            if isinstance(st, ast.If) and isinstance(st.test, ast.Compare) and len(st.test.ops) == 1 and \
+                    isinstance(st.test.ops[0], ast.NotEq) and isinstance(st.test.left, ast.Subscript) and \
+                    isinstance(st.test.left.slice, ast.Constant) and st.test.left.slice.value in fields and \
+                    isinstance(st.test.comparators[0], ast.Constant) and st.test.comparators[0].value == 0 and \
+                    len(st.body) == 1 and isinstance(st.body[0], ast.Return) and not st.orelse and \
+                    isinstance(st.body[0].value, ast.Call) and not st.body[0].value.args:
+                rows.append((fields[st.test.left.slice.value], getters.get(getattr(st.body[0].value.func, 'attr', None), 9)))
+            elif isinstance(st, ast.Return) and isinstance(st.value, ast.Call):
+                fallback = getters.get(getattr(st.value.func, 'attr', None), 9)
+            elif isinstance(st, ast.If):
+                rows.append((9, 9))
+        return rows, fallback
     b = lambda x: 'true' if x else 'false'
     src = ['/-! GENERATED by harness/props/c09.py `regen()` from the nibabel working tree — do not edit. -/',
            'namespace Nb.C09.Gen', '',
@@ -246,10 +291,18 @@ def regen():
            'def saveSpecial : List (Nat × Nat × Nat) := [' + ', '.join('(%d, %d, %d)' % r for r in save_special()) + ']', '',
            '/-- classes with a `to_bytes` method -/',
            'def hasToBytes : List Nat := [' + ', '.join(map(str, has_to_bytes)) + ']', '',
+           '/-- `Nifti1Pair._affine2header`: integer xform codes given to `set_sform(self._affine, code=…)` and',
+           '    `set_qform(self._affine, code=…)` (AST) -/',
+           'def affine2headerCodes : Nat × Nat := (%d, %d)' % a2h_codes(), '',
+           '/-- `Nifti1Header.get_best_affine` (AST): in source order, (code field tested `!= 0` — 0 sform_code /',
+           '    1 qform_code —, transform returned — 0 get_sform / 1 get_qform); then the fallback (2 = get_base_affine) -/',
+           'def bestAffineOrder : List (Nat × Nat) := [' + ', '.join('(%d, %d)' % r for r in best_order()[0]) + ']',
+           'def bestAffineFallback : Nat := %d' % best_order()[1], '',
            'end Nb.C09.Gen', '']
     common.write_if_changed(os.path.join(common.LEAN, 'NibabelModel', 'Generated', 'C09.lean'), '\n'.join(src))
     return ['Generated.C09.pathTable', 'Generated.C09.mghDtypes', 'Generated.C09.copiesBeforeOpen',
-            'Generated.C09.classTable', 'Generated.C09.saveSpecial', 'Generated.C09.hasToBytes']
+            'Generated.C09.classTable', 'Generated.C09.saveSpecial', 'Generated.C09.hasToBytes',
+            'Generated.C09.affine2headerCodes', 'Generated.C09.bestAffineOrder']
 
 
 # ------------------------------------------------------------------------------------------- cases
@@ -300,7 +353,7 @@ def selfsave_cases():
             ['L', 'E2', 'S', 'U', 'F'], ['L', 'Sq', 'S', 'Sq'], ['L', 'F', 'S', 'U', 'F', 'S'], ['L', 'B', 'S'],
             ['L', 'F4', 'S', 'F4'], ['L', 'F4', 'Sq', 'F', 'S', 'F4', 'F']]
     for p in range(NP):
-        variants = [(dt, m) for m in (1, 2, 0) for dt in _dts_for(p)]
+        variants = [(dt, m) for m in (1, 2, 0, 3, 4) for dt in _dts_for(p)]
         if p not in MGH_PATHS:
             # big-endian files and files stored with scale factors
             variants += [(dt, m) for m in (1, 0) for dt in ('>i16', '>f64', '>f32', 'i16s', '>u8s')]
@@ -308,7 +361,7 @@ def selfsave_cases():
             for big in ((False, True) if (m == 1 and p not in COMPRESSED and dt in DTS) else (False,)):
                 init = list(INIT_I16)
                 init[p] = dt
-                for h in (hist if m != 2 else hist[:4] + hist[10:]):
+                for h in (hist if m in (0, 1) else hist[:4] + hist[10:]):
                     ops = []
                     for o in h:
                         if o == 'L':
@@ -409,7 +462,7 @@ def rand_path(rng):
 def rand_op(rng):
     r = rng.random()
     if r < 0.22:
-        return f'L{rand_path(rng)}{rng.choice([1, 1, 2, 0])}' + rand_spell(rng)
+        return f'L{rand_path(rng)}{rng.choice([1, 1, 1, 2, 0, 0, 3, 4])}' + rand_spell(rng)
     if r < 0.55:
         return f'S{rand_path(rng)}' + rand_spell(rng)
     if r < 0.68:
@@ -433,7 +486,7 @@ def random_cases(rng, n, safe_bias=0.7):
     for _ in range(n):                                                   # child builds each template only once
         init = rng.choice(pool)
         ln = rng.randrange(4, 13)
-        ops = [f'L{rand_path(rng)}{rng.choice([1, 1, 2, 0])}']
+        ops = [f'L{rand_path(rng)}{rng.choice([1, 1, 1, 2, 0, 0, 3, 4])}']
         # most random histories avoid the open finding (dtype change followed by a save onto the source) so that
         # long histories stay informative; the rest are unconstrained
         avoid = rng.random() < safe_bias
@@ -627,7 +680,7 @@ def _layout_track(d, line):
     stale_at = alias = None
     for k, (op, tok) in enumerate(zip(d['ops'], toks)):
         if op[0] == 'L' and tok == 'L:ok':
-            src, mm = pidx(op[1]), op[2] != '0'
+            src, mm = pidx(op[1]), op[2] in '123'
             src_lay = lay.get(src)
             cached = set()
             stale_at = alias = None
@@ -727,7 +780,7 @@ def _child(jobfile, outfile, workdir):
     DTN = {'uint8': 'u8', 'int16': 'i16', 'int32': 'i32', 'float32': 'f32', 'float64': 'f64'}
     CLS = {'Nifti1Image': 'N1', 'Nifti1Pair': 'NP', 'MGHImage': 'MG', 'Spm2AnalyzeImage': 'S2', 'Nifti2Image': 'N2',
            'Nifti2Pair': 'P2'}
-    MMAP = {'0': False, '1': True, '2': 'r'}
+    MMAP = {'0': (False, None), '1': (True, None), '2': ('r', None), '3': (True, True), '4': (False, True)}
     from nibabel.filebasedimages import ImageFileError
     from nibabel.volumeutils import native_code
 
@@ -887,7 +940,7 @@ def _child(jobfile, outfile, workdir):
             tok, prob = None, None
             if c == 'L':
                 try:
-                    new = nib.load(spelled(op), mmap=MMAP[op[2]])
+                    new = nib.load(spelled(op), mmap=MMAP[op[2]][0], keep_file_open=MMAP[op[2]][1])
                     snap = np.array(new.dataobj)
                     img, live = new, snap
                     tok = 'L:ok'
